@@ -5,9 +5,15 @@ import "fmt"
 
 func init() { registry["C01"] = runC01 }
 
+// goldMode: indicator cases carry the frozen reference next to the regenerated model (C01)
+var goldMode bool
+
 func runC01(c *Ctx) error {
-	c.header = fmt.Sprintf(flowHeader, "Run.ValRun")
+	c.header = fmt.Sprintf(flowHeader, "Spec.IndicatorGolden Run.C01Run")
 	c.perFile = 60
+	c.caseType = "gcase"
+	goldMode = true
+	defer func() { goldMode = false }()
 	c.Meta.Rule = "every indicator type x sampled configurations (default, With-constructors, random periods 1..8) x series lengths around " +
 		"the warm-up and longer; regimes walk/flat/ties/up/down/zero-volume/spiky (OHLCV) and walk/zeros/negative/ties/flat/monotone/small-int (plain); " +
 		"observable = every value on every output, compared bit-for-bit (NaNs identified) with the model evaluated in Coq at binary64."
